@@ -5,7 +5,7 @@
 From Coq Require Import Reals List Lra Lia.
 From AhrsLib Require Import Base Rot.
 From AhrsGen Require Import C05gen_R.
-From AhrsProps Require Import C05_base C05_mahony C05_ekf C05_compl C05_scale C05_scale_roleq_ned C05_scale_roleq_enu.
+From AhrsProps Require Import C05_base C05_mahony C05_ekf C05_compl C05_scale C05_scale_lock C05_scale_lock_roleq C05_fixed_madgwick.
 Import ListNotations.
 Open Scope R_scope.
 
@@ -130,14 +130,33 @@ Proof.
 Qed.
 Print Assumptions C05_complementary_converges.
 
+(* Madgwick (IMU), fixed point: with the accelerometer reading the exact image of gravity under the true attitude q_true the
+   objective function vanishes, the gradient branch is skipped and the step is pure gyro integration, at q_true and at -q_true *)
+Theorem C05_madgwick_fixed_point : forall a b c d gx gy gz dt beta,
+  a*a + b*b + c*c + d*d = 1 -> 0 < gx*gx + gy*gy + gz*gz ->
+  let acc := img [a;b;c;d] [0;0;1] in
+  C05_madgwick_imu_R a b c d gx gy gz (e acc 0) (e acc 1) (e acc 2) dt beta
+    = Val (qnormalize (kin [a;b;c;d] [gx;gy;gz] dt)) /\
+  C05_madgwick_imu_R (-a) (-b) (-c) (-d) gx gy gz (e acc 0) (e acc 1) (e acc 2) dt beta
+    = Val (qnormalize (kin [-a;-b;-c;-d] [gx;gy;gz] dt)).
+Proof.
+  intros a b c d gx gy gz dt beta H Hg acc. split.
+  - exact (madgwick_imu_fixed a b c d gx gy gz dt beta H Hg).
+  - exact (madgwick_imu_fixed_neg a b c d gx gy gz dt beta H Hg).
+Qed.
+Print Assumptions C05_madgwick_fixed_point.
+
 (* magnitude independence: the measurements are images of reference DIRECTIONS; multiplying the accelerometer (and the
    magnetometer) sample by any positive constants leaves the regenerated step unchanged (every output, every branch) —
-   Mahony IMU (q and bias), ROLEQ (both frames), Complementary (IMU, MARG).  A correction built from the raw instead of the
+   Mahony IMU (q and bias), Madgwick IMU, ROLEQ (both frames), Complementary (IMU, MARG); Mahony MARG, Madgwick MARG and
+   AQUA IMU are in C05_thorough.v.  A correction built from the raw instead of the
    normalised sample (effective gain k_P*|a|) fails this. *)
 Theorem C05_scale_invariance : forall s t, 0 < s -> 0 < t ->
   forall w x y z gx gy gz ax ay az mx my mz dt, 0 < ax*ax + ay*ay + az*az -> 0 < mx*mx + my*my + mz*mz ->
   (forall kp ki b0 b1 b2, C05_mahony_imu_R w x y z gx gy gz (s*ax) (s*ay) (s*az) dt kp ki b0 b1 b2
                          = C05_mahony_imu_R w x y z gx gy gz ax ay az dt kp ki b0 b1 b2) /\
+  (forall beta, C05_madgwick_imu_R w x y z gx gy gz (s*ax) (s*ay) (s*az) dt beta
+               = C05_madgwick_imu_R w x y z gx gy gz ax ay az dt beta) /\
   (forall r0 r1 r2 wa wm,
      C05_roleq_ned_R w x y z gx gy gz (s*ax) (s*ay) (s*az) (t*mx) (t*my) (t*mz) r0 r1 r2 dt wa wm
      = C05_roleq_ned_R w x y z gx gy gz ax ay az mx my mz r0 r1 r2 dt wa wm /\
@@ -149,8 +168,9 @@ Theorem C05_scale_invariance : forall s t, 0 < s -> 0 < t ->
      C05_compl_imu_R e0 e1 e2 u0 u1 u2 gx gy gz (s*ax) (s*ay) (s*az) dt gain
      = C05_compl_imu_R e0 e1 e2 u0 u1 u2 gx gy gz ax ay az dt gain).
 Proof.
-  intros s t Hs Ht w x y z gx gy gz ax ay az mx my mz dt Ha Hm. split; [|split].
+  intros s t Hs Ht w x y z gx gy gz ax ay az mx my mz dt Ha Hm. split; [|split; [|split]].
   - intros. exact (mahony_imu_scale s w x y z gx gy gz ax ay az dt kp ki b0 b1 b2 Hs Ha).
+  - intros. exact (madgwick_imu_scale s w x y z gx gy gz ax ay az dt beta Hs Ha).
   - intros. split; [exact (roleq_ned_scale s t w x y z gx gy gz ax ay az mx my mz r0 r1 r2 dt wa wm Hs Ht Ha Hm)
                    |exact (roleq_enu_scale s t w x y z gx gy gz ax ay az mx my mz r0 r1 r2 dt wa wm Hs Ht Ha Hm)].
   - intros. split; [exact (compl_marg_scale s t e0 e1 e2 u0 u1 u2 gx gy gz ax ay az mx my mz dt gain Hs Ht Ha Hm)
